@@ -422,7 +422,7 @@ func Run(r *vk.Run) {
 	r.Assume("execution, sequencing and DA layers are doubles obeying the documented contracts")
 	r.Assume("default signature payload / validator hash providers only")
 	rng := r.Rand("scripts")
-	n := r.N(200, 5000)
+	n := r.N(2000, 60000)
 	scripts := make([]Script, n)
 	for i := range scripts {
 		scripts[i] = gen(rng, i, r.Quick())
